@@ -23,6 +23,9 @@ const apiVersion = 1
 type confirmable struct {
 	Name    string `json:"n"`
 	Started int64  `json:"t"` // Expects Unix
+	// Hash says which version of the file is being asked about (older
+	// clients don't send it; then the name alone decides, as before)
+	Hash string `json:"h,omitempty"`
 }
 
 func (c *confirmable) GetName() string {
@@ -258,6 +261,7 @@ func (h *Client) Validate(sent []sts.Pollable) (polled []sts.Polled, err error) 
 		cf = append(cf, &confirmable{
 			Name:    f.GetName(),
 			Started: f.GetStarted().Unix(),
+			Hash:    f.GetHash(),
 		})
 		fmap[f.GetName()] = f
 	}
